@@ -42,10 +42,21 @@ def effective_blocked(problem):
 
 def gen_problem(rng, tier):
     h, w = rng.choice(_SHAPES)
-    mode = rng.random()
+    return _gen(rng, h, w)
+
+
+def extra_program_problems(rng):
+    """Larger boards for the program correspondence only (nothing is enumerated there): one non-square medium board and two
+    with more than 256 cells (a tall and a wide one); the blocked cells are those off a random
+    loop (`_loop.random_loop`), the pivot anywhere."""
+    return [_gen(rng, h, w, _loop.random_loop(rng, h, w, rng.choice([0.5, 0.8]))) for h, w in _loop.big_shapes(rng)]
+
+
+def _gen(rng, h, w, a=None):
+    mode = rng.random() if a is None else 0.0
     if mode < 0.6:
-        loops = _loop.single_loops(h, w)
-        a = rng.choice(loops)
+        if a is None:
+            a = rng.choice(_loop.single_loops(h, w))
         seen = _loop.trace_loop(_loop.active_edges(a, h, w))
         b = [[0 if (y, x) in seen else 1 for x in range(w)] for y in range(h)]
         if rng.random() < 0.2:
